@@ -1078,7 +1078,7 @@ def schedule_refusals(chk, uwg, work):
                mismatches=bad, branches=br)
 
 
-KNOWN_NAN_SETPOINT = True      # unchanged tree: nan accepted as a set point, run ends in the model's own FATAL ERROR (recorded)
+KNOWN_NAN_SETPOINT = False     # repaired in /repo (SchDef refuses NaN): a nan set point must be refused or simulate
 
 
 def run(chk):
